@@ -16,7 +16,7 @@ RULE = (
     "do-queries: strictly positive networks (3-6 string-named nodes, optional latents) x do-sets (single, "
     "pairs incl. parent-child) x query sets x {ve,bp} x {default adjustment, every reference-valid back-door "
     "set}, oracle = brute-force truncated factorisation; criteria: every labelled DAG on n<=4 (quick) / n<=5 "
-    "(thorough) nodes x ordered (X,Y) x every Z among observed non-descendants of X x rotating latent subsets, "
+    "(thorough) nodes x ordered (X,Y) x every Z among observed non-descendants of X x latent subsets (none, every single node, one rotating pair), "
     "oracle = enumeration of back-door / front-door paths. non-trivial = treatment has a parent that reaches "
     "the outcome avoiding the treatment (confounding) and the outcome is a descendant of the treatment; "
     "enumerated DAGs are distinct by construction, generated cases by sha1."
@@ -280,18 +280,65 @@ def _cmp(out, tag, res, query, want, spec, idx, extra=""):
 NAMES = ["A", "B", "C", "D", "E"]
 
 
+def _latent_masks(n, gi):
+    """latent subsets tried per DAG: none, every single node (n <= 4; two rotating ones for n = 5) and one rotating
+    pair - a latent can be a confounder, a mediator or a collider depending on the DAG, and all DAGs are enumerated"""
+    if n <= 2:
+        return [0]
+    singles = [1 << k for k in range(n)]
+    if n == 5:
+        singles = [singles[gi % 5], singles[(gi // 5 + 1 + gi) % 5]]
+    pairs = [(1 << a) | (1 << b) for a in range(n) for b in range(a + 1, n)]
+    out = [0] + sorted(set(singles))
+    if n >= 4:
+        out.append(pairs[(gi * 2654435761) % len(pairs)])
+    return out
+
+
 def _enum_criteria(tier):
     ns = [2, 3, 4] if tier == "quick" else [2, 3, 4, 5]
-    index = [(n, i) for n in ns for i in range(len(gen.all_dags(n)))]
+    index = []
+    gi = 0
+    for n in ns:
+        for i in range(len(gen.all_dags(n))):
+            for m in _latent_masks(n, gi):
+                index.append((n, i, m))
+            gi += 1
 
     def it(lo, hi):
-        for gi in range(lo, hi):
-            n, i = index[gi]
-            m = (gi * 2654435761) % (2**n)
-            lat = [NAMES[k] for k in range(n) if (m >> k) & 1] if gi % 3 == 0 else []
+        for k in range(lo, hi):
+            n, i, m = index[k]
+            lat = [NAMES[b] for b in range(n) if (m >> b) & 1]
             yield {"nodes": NAMES[:n], "edges": [[NAMES[u], NAMES[v]] for u, v in gen.all_dags(n)[i]], "latents": lat}
 
     return len(index), it
+
+
+@st.composite
+def criteria_case(draw):
+    """larger DAGs (5-6 nodes) than the enumeration reaches in the quick tier, with latents placed by role: mediators
+    (a parent and a child), confounders (two children) or arbitrary nodes"""
+    n = draw(st.sampled_from([5, 6, 5]))
+    names = (NAMES + ["F"])[:n]
+    topo = list(draw(st.permutations(names)))
+    edges = [[topo[i], topo[j]] for j in range(n) for i in range(j) if draw(st.integers(0, 4)) < 2]
+    indeg = {v: sum(1 for e in edges if e[1] == v) for v in names}
+    outdeg = {v: sum(1 for e in edges if e[0] == v) for v in names}
+    role = draw(st.sampled_from(["all_children_of_a_node", "mediator", "all_children_of_a_node", "confounder", "any", "none"]))
+    if role == "all_children_of_a_node":
+        # every child of some node with parents is latent: its further descendants are reached through latents only
+        cand = [v for v in names if indeg[v] and 1 <= outdeg[v] <= 2] or [v for v in names if 1 <= outdeg[v] <= 2]
+        if cand:
+            x = cand[draw(st.integers(0, len(cand) - 1))]
+            lat = sorted(e[1] for e in edges if e[0] == x)
+        else:
+            lat = []
+    else:
+        pool = {"mediator": [v for v in names if indeg[v] and outdeg[v]], "confounder": [v for v in names if outdeg[v] >= 2],
+                "any": list(names), "none": []}[role]
+        k = min(len(pool), draw(st.integers(1, 2)))
+        lat = sorted(list(draw(st.permutations(pool)))[:k]) if pool else []
+    return {"nodes": names, "edges": edges, "latents": lat, "latent_role": role}
 
 
 def _subsets(items):
@@ -313,6 +360,8 @@ def check_criteria(case, out):
         return
     if lat:
         out.cls("with_latents")
+        if any(g.pa[v] and g.ch[v] for v in lat):
+            out.cls("latent_mediator")
     obs = [v for v in nodes if v not in lat]
     for x, y in itertools.permutations(obs, 2):
         nondesc = [v for v in obs if v not in (x, y) and v not in g.descendants(x)]
@@ -378,6 +427,8 @@ SUBCHECKS = [
         shards={"quick": 4, "thorough": 8}, doc="BayesianNetwork.do / DAG.do: edges, CPDs of intervened nodes parent-free, other CPDs untouched, original untouched when not in place"),
     Sub("do_query", check_query, strategy=lambda tier: query_case(), n={"quick": 120, "thorough": 1500},
         shards={"quick": 8, "thorough": 16}, doc="CausalInference.query(do=...) with default and reference-valid adjustment sets, ve/bp, vs truncated factorisation"),
+    Sub("criteria_sampled", check_criteria, strategy=lambda tier: criteria_case(), n={"quick": 120, "thorough": 2000},
+        shards={"quick": 8, "thorough": 16}, doc="the same criteria checks on generated 5-6 node DAGs with latents placed as mediators / confounders"),
     Sub("criteria", check_criteria, enumerate=_enum_criteria, shards={"quick": 8, "thorough": 16},
         doc="is_valid_backdoor_adjustment_set / is_valid_adjustment_set / get_all_backdoor / get_all_frontdoor / get_minimal_adjustment_set vs path enumeration on every small DAG"),
 ]
